@@ -10,7 +10,7 @@ coqdir="${COQDIR:-/verif/coq}"
 ex=$2; shift 2
 mkdir -p "$out"; cd "$out"
 timeout 900 coqc -Q "$coqdir" Mamba "$coqdir/Extract/$ex.v" > extract.log 2>&1 || { cat extract.log; exit 1; }
-[ "$out" = "$src" ] || cp "$src"/*.ml "$out"/ 2>/dev/null || true
+if [ "$out" != "$src" ]; then for f in "$src"/*.ml; do case "$(basename "$f")" in model.ml|conv_*.ml) ;; *) cp "$f" "$out"/;; esac; done; fi
 convs=""
 for c in "$@"; do cp "$here/$c.ml" .; convs="$convs $c.ml"; done
 extra=""
